@@ -572,6 +572,8 @@ func (dr *dirRepo) repoInit(locked bool) error {
 		return fmt.Errorf("index.json is a directory: %s", indexName)
 	}
 	if err != nil && errors.Is(err, fs.ErrNotExist) {
+		// the index of a new repo is created with the referrers conversion already marked
+		dr.indexDefault()
 		err = dr.indexSave(locked)
 	}
 	if err != nil {
@@ -579,6 +581,21 @@ func (dr *dirRepo) repoInit(locked bool) error {
 	}
 	dr.exists = true
 	return nil
+}
+
+// indexDefault sets the default values of an index that has not been loaded (does not exist or unparsable).
+func (dr *dirRepo) indexDefault() {
+	if dr.index.MediaType == "" && len(dr.index.Manifests) == 0 {
+		dr.index = types.Index{
+			SchemaVersion: 2,
+			MediaType:     types.MediaTypeOCI1ManifestList,
+			Manifests:     []types.Descriptor{},
+			Annotations:   map[string]string{},
+		}
+		if *dr.conf.API.Referrer.Enabled {
+			dr.index.Annotations[types.AnnotReferrerConvert] = "true"
+		}
+	}
 }
 
 func (dr *dirRepo) indexLoad(force, locked bool) error {
@@ -590,18 +607,7 @@ func (dr *dirRepo) indexLoad(force, locked bool) error {
 	if !force && time.Since(dr.timeCheck) < freqCheck {
 		return nil
 	}
-	if dr.index.MediaType == "" && len(dr.index.Manifests) == 0 {
-		// default values for the index if the load fails (does not exist or unparsable)
-		dr.index = types.Index{
-			SchemaVersion: 2,
-			MediaType:     types.MediaTypeOCI1ManifestList,
-			Manifests:     []types.Descriptor{},
-			Annotations:   map[string]string{},
-		}
-		if *dr.conf.API.Referrer.Enabled {
-			dr.index.Annotations[types.AnnotReferrerConvert] = "true"
-		}
-	}
+	dr.indexDefault()
 	fh, err := os.Open(filepath.Join(dr.path, indexFile))
 	if err != nil {
 		if errors.Is(err, fs.ErrNotExist) {
